@@ -55,7 +55,7 @@ use crate::wirecheck::{self as wc, Addr};
 use frames as fr;
 use serde_json::json;
 use smoltcp::iface::{Config, Interface, SocketHandle, SocketSet};
-use smoltcp::phy::{Device, DeviceCapabilities, Medium};
+use smoltcp::phy::{Checksum, ChecksumCapabilities, Device, DeviceCapabilities, Medium};
 use smoltcp::socket::{icmp, raw, udp};
 use smoltcp::time::Instant;
 use smoltcp::wire::{
@@ -106,6 +106,54 @@ impl Phase {
     }
 }
 
+/// Checksum capabilities the device announces (`DeviceCapabilities::checksum`)
+#[derive(Clone, Copy, PartialEq, Eq, Debug, Hash, PartialOrd, Ord)]
+pub enum Ck {
+    /// everything `Both`: the stack computes and verifies all checksums
+    Default,
+    /// `ipv4 = Rx`: the device computes the IPv4 header checksum on transmit ("tx offload"),
+    /// the stack still verifies it on receive
+    Ipv4Rx,
+    /// `ipv4 = None`
+    Ipv4None,
+    /// ipv4, udp, tcp, icmpv4, icmpv6 all `Rx`
+    AllRx,
+}
+impl Ck {
+    fn name(self) -> &'static str {
+        match self {
+            Ck::Default => "default",
+            Ck::Ipv4Rx => "ipv4rx",
+            Ck::Ipv4None => "ipv4none",
+            Ck::AllRx => "allrx",
+        }
+    }
+    fn caps(self) -> ChecksumCapabilities {
+        let mut c = ChecksumCapabilities::default();
+        match self {
+            Ck::Default => {}
+            Ck::Ipv4Rx => c.ipv4 = Checksum::Rx,
+            Ck::Ipv4None => c.ipv4 = Checksum::None,
+            Ck::AllRx => {
+                c.ipv4 = Checksum::Rx;
+                c.udp = Checksum::Rx;
+                c.tcp = Checksum::Rx;
+                c.icmpv4 = Checksum::Rx;
+                c.icmpv6 = Checksum::Rx;
+            }
+        }
+        c
+    }
+}
+/// does the STACK write this checksum on transmit (otherwise the device does, and the field
+/// the stack leaves in the frame is not compared)
+fn stack_computes(c: Checksum) -> bool {
+    match c {
+        Checksum::Both | Checksum::Tx => true,
+        Checksum::Rx | Checksum::None => false,
+    }
+}
+
 #[derive(Clone)]
 pub struct Cfg {
     pub phase: Phase,
@@ -126,12 +174,13 @@ pub struct Cfg {
     /// are then {hdr, M-1, M, M+1} where a datagram of M bytes gives an IP packet of exactly
     /// `ip_mtu` bytes (36: ip_mtu % 8 == 4, i.e. (ip_mtu-20) % 8 == 0; 34: another residue).
     pub ip_mtu: usize,
+    pub ck: Ck,
 }
 impl std::fmt::Debug for Cfg {
     fn fmt(&self, f: &mut std::fmt::Formatter) -> std::fmt::Result {
         write!(
             f,
-            "phase={} kind={} medium={} ip={} slots={} k={} route={} mtu={}",
+            "phase={} kind={} medium={} ip={} slots={} k={} route={} mtu={} ck={}",
             self.phase.name(),
             self.kind.name(),
             if self.eth { "eth" } else { "ip" },
@@ -139,13 +188,14 @@ impl std::fmt::Debug for Cfg {
             self.slots,
             self.k,
             if self.via_b { "viaB" } else { "none" },
-            if self.ip_mtu == 0 { "std".to_string() } else { self.ip_mtu.to_string() }
+            if self.ip_mtu == 0 { "std".to_string() } else { self.ip_mtu.to_string() },
+            self.ck.name()
         )
     }
 }
 impl Cfg {
     fn parse(s: &str) -> Option<Cfg> {
-        let mut c = Cfg { phase: Phase::Mix, kind: Kind::Udp, eth: true, v6: false, slots: 1, k: 4, via_b: false, ip_mtu: 0 };
+        let mut c = Cfg { phase: Phase::Mix, kind: Kind::Udp, eth: true, v6: false, slots: 1, k: 4, via_b: false, ip_mtu: 0, ck: Ck::Default };
         let mut seen = 0;
         for tok in s.split_whitespace() {
             let (k, v) = tok.split_once('=')?;
@@ -176,6 +226,17 @@ impl Cfg {
                 "mtu" => {
                     seen -= 1;
                     c.ip_mtu = if v == "std" { 0 } else { v.parse().ok()? }
+                }
+                // absent in artefacts written before the checksum-capability dimension existed
+                "ck" => {
+                    seen -= 1;
+                    c.ck = match v {
+                        "default" => Ck::Default,
+                        "ipv4rx" => Ck::Ipv4Rx,
+                        "ipv4none" => Ck::Ipv4None,
+                        "allrx" => Ck::AllRx,
+                        _ => return None,
+                    }
                 }
                 _ => return None,
             }
@@ -846,10 +907,17 @@ impl DgH {
                 // smoltcp documents nothing about the checksum of a packet handed to an icmp
                 // socket; it parses and re-emits the message (recomputing the checksum), so the
                 // checksum field is masked (lenient reading of "unmodified").
+                // With a device that computes the ICMP checksum itself the field the stack
+                // leaves in the frame is not compared at all; when the stack computes it, it
+                // must come out as the (correct) value the application wrote.
+                let caps = self.cfg.ck.caps();
+                let stack = stack_computes(if self.cfg.v6 { caps.icmpv6 } else { caps.icmpv4 });
                 if payload.len() != e.bytes.len() {
                     Some("payload-length")
                 } else if payload[..2] != e.bytes[..2] || payload[4..] != e.bytes[4..] {
                     Some("payload-bytes")
+                } else if stack && payload[2..4] != e.bytes[2..4] {
+                    Some("icmp-checksum")
                 } else {
                     None
                 }
@@ -921,6 +989,18 @@ impl DgH {
                     None
                 }
             }
+        }
+    }
+
+    /// Signature cause for "an accepted, deliverable datagram left the queue without a frame /
+    /// was never transmitted": its own class on a raw IPv4 socket over a device that computes
+    /// the IPv4 header checksum itself but has the stack verify it on receive (`ipv4 = Rx`).
+    fn lost_cause(&self, default: &'static str) -> &'static str {
+        let ipv4 = self.cfg.ck.caps().ipv4;
+        if self.cfg.kind == Kind::Raw && !self.cfg.v6 && !stack_computes(ipv4) && ipv4.rx() {
+            "dropped-with-ipv4-tx-checksum-offload"
+        } else {
+            default
         }
     }
 
@@ -1190,7 +1270,8 @@ impl DgH {
                             gone.bytes.len(),
                             self.a(gone.dst)
                         );
-                        self.viol(out, "tx-liveness", "vanished-from-queue", d, true);
+                        let cause = self.lost_cause("vanished-from-queue");
+                        self.viol(out, "tx-liveness", cause, d, true);
                     }
                 }
                 self.tx_model.push_back(TxEntry { label, dst, bytes, malformed, local, bound_addr });
@@ -1574,6 +1655,12 @@ impl DgH {
             return;
         };
         stat(v);
+        // a deliverable datagram that is neither on the wire nor in the queue any more was lost,
+        // not blocked: report that (check_accessors) rather than a liveness verdict
+        let need: usize = self.tx_model.iter().filter(|e| self.deliverable(e)).map(|e| e.bytes.len()).sum();
+        if self.send_queue() < need {
+            return;
+        }
         // liveness: every deliverable accepted datagram must have appeared by now
         let stuck = self.tx_model.iter().enumerate().find(|(_, e)| self.deliverable(e)).map(|(i, e)| (i, e.clone()));
         match stuck {
@@ -1607,7 +1694,7 @@ impl DgH {
                 let cause = match &blocker {
                     Some(b) if blocked && b.malformed => "blocked-behind-malformed-datagram",
                     Some(_) if blocked => "blocked-behind-unroutable-datagram",
-                    _ => "never-transmitted",
+                    _ => self.lost_cause("never-transmitted"),
                 };
                 self.viol(out, "tx-liveness", cause, d, false);
             }
@@ -1631,8 +1718,14 @@ impl DgH {
         let need: usize = self.tx_model.iter().filter(|e| self.deliverable(e)).map(|e| e.bytes.len()).sum();
         let have = self.send_queue();
         if have < need {
-            let d = format!("send_queue()={} but {} bytes of accepted deliverable datagrams have not been transmitted", have, need);
-            self.viol(out, "tx-liveness", "vanished-from-queue", d, true);
+            let d = format!(
+                "send_queue()={} but {} bytes of accepted deliverable datagrams have not been transmitted (device checksum capabilities: {})",
+                have,
+                need,
+                self.cfg.ck.name()
+            );
+            let cause = self.lost_cause("vanished-from-queue");
+            self.viol(out, "tx-liveness", cause, d, true);
         }
     }
 
@@ -1829,6 +1922,7 @@ impl Harness for DgH {
     fn new(cfg: &Cfg) -> Self {
         let medium = if cfg.eth { Medium::Ethernet } else { Medium::Ip };
         let mut dev = BpDev { inner: SimDevice::new(medium, cfg.link_ip_mtu() + if cfg.eth { 14 } else { 0 }), refuse_next: 0 };
+        dev.inner.checksum = cfg.ck.caps();
         let hw = if cfg.eth { HardwareAddress::Ethernet(EthernetAddress(MAC_US)) } else { HardwareAddress::Ip };
         let mut c = Config::new(hw);
         c.random_seed = 1;
@@ -2057,7 +2151,7 @@ fn configs(tier: Tier) -> Vec<(Cfg, usize)> {
                         if tier == Tier::Quick && ![(1, 4), (2, 6), (3, 8)].contains(&(slots, k)) {
                             continue;
                         }
-                        let c = Cfg { phase, kind, eth, v6, slots, k, via_b, ip_mtu: 0 };
+                        let c = Cfg { phase, kind, eth, v6, slots, k, via_b, ip_mtu: 0, ck: Ck::Default };
                         let d = depth_for(tier, &c);
                         v.push((c, d));
                     }
@@ -2074,10 +2168,24 @@ fn configs(tier: Tier) -> Vec<(Cfg, usize)> {
                     if tier == Tier::Quick && slots != 2 {
                         continue;
                     }
-                    let mut c = Cfg { phase: Phase::Tx, kind, eth, v6: false, slots, k: 0, via_b, ip_mtu };
+                    let mut c = Cfg { phase: Phase::Tx, kind, eth, v6: false, slots, k: 0, via_b, ip_mtu, ck: Ck::Default };
                     // room for two datagrams of about the critical size (wrap-around included)
                     c.k = 2 * (c.fills_mtu() - c.hdr()) + 2;
                     let d = depth_for(tier, &c);
+                    v.push((c, d));
+                }
+            }
+        }
+    }
+    // device checksum capabilities other than the default (tx alphabet): ipv4 = Rx / None for
+    // IPv4, all = Rx for both IP versions; Ethernet (no route for C) and Medium::Ip
+    for kind in [Kind::Udp, Kind::Icmp, Kind::Raw] {
+        for (ck, v6) in [(Ck::Ipv4Rx, false), (Ck::Ipv4None, false), (Ck::AllRx, false), (Ck::AllRx, true)] {
+            for eth in [true, false] {
+                let rings: &[(usize, usize)] = if tier == Tier::Quick { &[(1, 4), (2, 4)] } else { &[(1, 4), (2, 6), (3, 8)] };
+                for &(slots, k) in rings {
+                    let c = Cfg { phase: Phase::Tx, kind, eth, v6, slots, k, via_b: false, ip_mtu: 0, ck };
+                    let d = if tier == Tier::Quick && slots == 2 { 5 } else if slots == 3 { 6 } else { depth_for(tier, &c) };
                     v.push((c, d));
                 }
             }
@@ -2178,6 +2286,7 @@ pub fn run(tier: Tier) -> i32 {
         json!({
             "tight_links": "IPv4, tx alphabet, IP MTU 36 (= 4 mod 8) and 34: send sizes {hdr, M-1, M, M+1} with M = the datagram whose IP packet is exactly the IP MTU; a datagram that fits must leave unfragmented (MF=0, offset 0); for M+1 the first fragment stands for the datagram, later fragments are only counted (C12)",
             "send_local_address": "udp: the interface owns two addresses per family; extra sends with UdpMetadata::local_address = Some(first own address) / Some(second own address) (to A, and to the unresolved B on Ethernet), offered while bound by port and while bound by (first address, port); expected IP source = local_address if set, else the bound address, else any own address",
+            "checksum_capabilities": "extra tx-alphabet configurations with DeviceCapabilities::checksum = {ipv4 Rx, ipv4 None (IPv4), all five Rx (IPv4 and IPv6)} on Ethernet and Medium::Ip for all three socket kinds; a checksum field is only compared where the stack computes it (explicit match Both | Tx): the ICMP checksum of icmp-socket messages; IP/UDP checksums are never part of the comparison",
             "send": "size in {hdr, hdr+1, hdr+3, capacity} x destination in {A resolved, B unresolved on-link, C off-link (default route via B | no route)}; api rotates over send_slice / send / send_with(max=size+2); plus 3 malformed bytes (icmp, raw)",
             "receive": "recv_slice(capacity+8), recv_slice(hdr+2), peek, peek_slice(hdr+2) (udp, raw)",
             "socket": "bind(port) / bind(addr,port) / close (udp); bind(Ident) (icmp)",
